@@ -14,10 +14,16 @@
   establishes for reachable states), the engine contract of C11 (`casMissingNotFound = false`) and
   64-bit revisions: `WHyp`.
 
-  The FULL statement (`ShimSound`: every transaction is either refused or answered as etcd would) is
-  FALSE of the code; it is kept visible, refuted (`shim_sound_false`), proved for the explicit
-  well-shapedness predicate `Canonical` (`shim_sound_partial`), and every kind of deviation has a
-  `decide`d counterexample below, replayed on the real server by kbcheck/props/c16.py on every run.
+  The recognisers modelled are the REPAIRED ones (/repo commit 4c41c58). The full statement for
+  transactions is now a theorem: `shim_sound` — every structurally valid transaction other than the
+  compactor's is either refused with an error (and nothing is executed: `refused_unchanged`) or answered
+  with the projection etcd prescribes. What used to be executed as something else is refused
+  (`key_mismatch_rejected`, `ranged_delete_rejected`, `mod0_delete_rejected`, `update_put_flags_rejected`,
+  `op_options_rejected`; in general `executed_only_if_canonical`), and the unguarded delete of a missing
+  key now answers `Succeeded = true` like etcd (`unguarded_delete_missing_flag`). The scripts of these
+  theorems are replayed on the real server by kbcheck/props/c16.py on every run.
+  For reads the full statement is still false for `Count`: `range_matches_ref` is partial there and
+  `limited_count_wrong`, `count_bounds_unchecked` are the witnesses (known findings).
 -/
 import KB.Lemmas.Etcd
 import KB.Lemmas.EtcdRange
@@ -39,107 +45,126 @@ def k8sDelete (k : Bytes) (exp : Nat) : TxnReq :=
 def k8sDeleteUnguarded (k : Bytes) : TxnReq :=
   { compare := [], success := [.range { key := k }, .del { key := k }], failure := [] }
 
+theorem plainGet_of_key (k : Bytes) : PlainGet { key := k } k := ⟨rfl, rfl, rfl, rfl, rfl, rfl, rfl, rfl, rfl⟩
+
 /-- The four shapes are recognised as the backend call they mean, for every key, value, lease and
-expected revision. -/
+expected revision (a guarded delete with a positive one). -/
 theorem k8s_shapes_recognised (k v : Bytes) (lease : Int) (exp : Nat) :
     classify (k8sCreate k v lease) = .create { key := k, val := v, lease := lease } ∧
     classify (k8sUpdate k v exp lease) = .update exp k v lease ∧
-    classify (k8sDelete k exp) = .delete exp k ∧
-    classify (k8sDeleteUnguarded k) = .delete 0 k := by
-  refine ⟨classify_create ⟨rfl, rfl, rfl, rfl, rfl⟩, classify_update (n := exp) ⟨rfl, rfl, rfl, rfl, rfl⟩,
-    classify_gdelete (n := exp) ⟨rfl, rfl, rfl, rfl, rfl⟩, classify_udelete _ _⟩
+    (0 < exp → classify (k8sDelete k exp) = .delete exp k true) ∧
+    classify (k8sDeleteUnguarded k) = .delete 0 k false := by
+  refine ⟨classify_create ⟨rfl, rfl, rfl, rfl, rfl⟩, ?_, ?_, classify_udelete rfl (plainGet_of_key k)⟩
+  · exact classify_update' (n := exp) (p := { key := k, val := v, lease := lease }) (g := { key := k })
+      ⟨rfl, rfl, rfl, rfl, rfl⟩ rfl rfl rfl (plainGet_of_key k)
+  · intro h0
+    exact classify_gdelete (n := exp) ⟨rfl, rfl, rfl, rfl, rfl⟩ (by omega) rfl (plainGet_of_key k)
 
 /-- ... and on any backend state with a consistent index record for the key they are answered with
 the projection etcd prescribes on the abstracted state: success flag, revision of the write, the
-key-values of the reads. Expected revisions are correct / stale / zero (not above the dealt revision);
-the unguarded delete is stated for an existing key (for a missing one see
-`unguarded_delete_missing_flag`), the guarded delete for a non-zero expectation
-(`mod0_delete_unconditional`). -/
+key-values of the reads — create; update and guarded delete with a correct / stale / zero expectation
+(not above `dealt + 1`); the unguarded delete of an existing or a missing key. -/
 theorem k8s_shapes_accepted (c : Cfg) (s : BState) (m : Mvcc) (k v : Bytes) (lease : Int) (exp : Nat)
     (hk : k ≠ []) (hw : WHyp c s k) (ha : AbsAt c s m k) :
     Agree c s m (k8sCreate k v lease) ∧
-    (exp ≤ s.dealt → Agree c s m (k8sUpdate k v exp lease)) ∧
-    (0 < exp → exp ≤ s.dealt → Agree c s m (k8sDelete k exp)) ∧
-    (curKv c s k ≠ none → Agree c s m (k8sDeleteUnguarded k)) := by
-  have hget : PlainGet { key := k } k := ⟨rfl, rfl, rfl, rfl, rfl, rfl, rfl, rfl, rfl, rfl, rfl⟩
+    (exp ≤ s.dealt + 1 → Agree c s m (k8sUpdate k v exp lease)) ∧
+    (0 < exp → exp ≤ s.dealt + 1 → Agree c s m (k8sDelete k exp)) ∧
+    Agree c s m (k8sDeleteUnguarded k) := by
   refine ⟨?_, ?_, ?_, ?_⟩
   · exact sound_create c s m _ { key := k, val := v, lease := lease } ⟨rfl, rfl, rfl, rfl, rfl⟩
       ⟨hk, rfl, rfl, rfl⟩ hw ha
   · intro hle
-    exact sound_update c s m _ { key := k, val := v, lease := lease } { key := k } exp ⟨rfl, rfl, rfl, rfl, rfl⟩
-      (by omega) (by omega) ⟨hk, rfl, rfl, rfl⟩ hget hw ha
+    exact sound_update_in c s m _ { key := k, val := v, lease := lease } { key := k } exp ⟨rfl, rfl, rfl, rfl, rfl⟩
+      (by omega) (by omega) ⟨hk, rfl, rfl, rfl⟩ (plainGet_of_key k) hw ha
   · intro h0 hle
-    exact sound_gdelete c s m _ { key := k } { key := k } exp ⟨rfl, rfl, rfl, rfl, rfl⟩ (by omega) (by omega)
-      hk rfl hget hw ha
-  · intro hex
-    exact sound_udelete c s m { key := k } { key := k } hk rfl hget hw ha hex
+    exact sound_gdelete_in c s m _ { key := k } { key := k } exp ⟨rfl, rfl, rfl, rfl, rfl⟩ (by omega) (by omega)
+      hk rfl (plainGet_of_key k) hw ha
+  · exact sound_udelete c s m { key := k } { key := k } hk rfl (plainGet_of_key k) hw ha
 
-/-! ### well-shaped transactions: shim = reference -/
+/-! ### the full statement for transactions -/
 
-/-- the key a well-shaped transaction works on -/
-def opKey (t : TxnReq) : Bytes :=
-  match t.success with
-  | [.put p] => p.key
-  | [.del d] => d.key
-  | [_, .del d] => d.key
-  | _ => []
+/-- A transaction that is not recognised, and one whose create shape carries put flags, is answered
+with an error and NOTHING is executed: the state is unchanged. -/
+theorem refused_unchanged (c : Cfg) (s : BState) (t : TxnReq) :
+    (classify t = .unsupported → shimTxn c s t = (.error .unsupported, s)) ∧
+    (∀ p, classify t = .create p → (p.ignoreLease = true ∨ p.ignoreValue = true ∨ p.prevKv = true) →
+      shimTxn c s t = (.error .field, s)) := by
+  constructor
+  · intro h
+    unfold shimTxn
+    rw [h]
+  · intro p h hf
+    unfold shimTxn
+    rw [h]
+    exact shimCreate_flags c s p hf
 
-/-- For every transaction satisfying `Canonical` (compare key = op key, empty range_end, plain Get,
-put without flags, non-zero expectation on the guarded delete) whose expectation is not in the future,
-except the unguarded delete of a missing key: the shim answers, the reference answers, and the
-observable projections are equal. -/
-theorem shim_sound_partial (c : Cfg) (s : BState) (m : Mvcc) (t : TxnReq) (hcan : Canonical t)
-    (hw : WHyp c s (opKey t)) (ha : AbsAt c s m (opKey t))
-    (hexp : ∀ cm ∈ t.compare, cm.int ≤ s.dealt)
-    (hnm : t.compare = [] → curKv c s (opKey t) ≠ none) :
-    Agree c s m t := by
-  cases hcan with
-  | create cm p hc hp => exact sound_create c s m cm p hc hp hw ha
-  | update cm p g n hc h0 hp hg =>
-    have hle : n ≤ s.dealt := by have := hexp cm (by simp); rw [hc.2.2.2.2] at this; exact this
-    exact sound_update c s m cm p g n hc h0 hle hp hg hw ha
-  | gdelete cm d g n hc h0 hk he hg =>
-    have hle : n ≤ s.dealt := by have := hexp cm (by simp); rw [hc.2.2.2.2] at this; exact this
-    exact sound_gdelete c s m cm d g n hc h0 hle hk he hg hw ha
-  | udelete g d hk he hg => exact sound_udelete c s m g d hk he hg hw ha (hnm rfl)
-
-/-- The one deviation among the well-shaped transactions: the unguarded delete of a missing key is
-answered `Succeeded = false` where etcd (no compares) answers `true`; nothing is written on either
-side and the range response is the same empty one. -/
-theorem unguarded_delete_missing_flag (c : Cfg) (s : BState) (m : Mvcc) (g : RangeReq) (d : DelReq)
-    (hk : d.key ≠ []) (he : d.rangeEnd = []) (hg : PlainGet g d.key) (hw : WHyp c s d.key)
-    (ha : AbsAt c s m d.key) (hmiss : curKv c s d.key = none) :
-    ∃ r r' m', (shimTxn c s { compare := [], success := [.range g, .del d], failure := [] }).1 = .ok r ∧
-      refTxn m { compare := [], success := [.range g, .del d], failure := [] } = .ok (r', m') ∧
-      r.ok = false ∧ r'.ok = true ∧ r.wrote = false ∧ r'.wrote = false ∧
-      readsOf [.range g, .del d] r.resps = [some []] ∧ readsOf [.range g, .del d] r'.resps = [some []] :=
-  udelete_missing c s m g d hk he hg hw ha hmiss
-
-/-- Any transaction the recognisers do not match is refused with an error and nothing is executed:
-the state is unchanged. -/
-theorem unsupported_rejected_unchanged (c : Cfg) (s : BState) (t : TxnReq) (h : classify t = .unsupported) :
-    shimTxn c s t = (.error .unsupported, s) := by
+/-- The compactor's transaction (`version(compact_rev_key) = n`) is answered with a canned "not your
+turn" and nothing is executed — a deliberate emulation, excluded from `shim_sound`. -/
+theorem compact_canned (c : Cfg) (s : BState) (t : TxnReq) (h : classify t = .compact) :
+    shimTxn c s t = (.ok compactResp, s) := by
   unfold shimTxn
   rw [h]
 
-/-- The refusal of put flags in the create shape happens before the backend is called. -/
-theorem create_flags_rejected_unchanged (c : Cfg) (s : BState) (p : PutReq)
-    (h : p.ignoreLease = true ∨ p.ignoreValue = true ∨ p.prevKv = true) :
-    shimCreate c s p = (.error .field, s) := by
-  unfold shimCreate
-  rcases h with h | h | h <;> simp [h]
+/-- Whatever is executed (answered without an error, other than the compactor's canned answer) is
+well-shaped: compare key = op key, no `range_end`, plain Get, put without flags, positive expectation
+on the guarded delete. "Never executed as something else." -/
+theorem executed_only_if_canonical (c : Cfg) (s : BState) (t : TxnReq) (hreq : ReqOK t)
+    (hnc : classify t ≠ .compact) (r : TxnResp) (hok : (shimTxn c s t).1 = .ok r) : Canonical t := by
+  rcases txn_cases t hreq with h | h | ⟨cm, p, rfl, hc, hf⟩ | h
+  · rw [(refused_unchanged c s t).1 h] at hok
+    cases hok
+  · exact absurd h hnc
+  · rw [(refused_unchanged c s _).2 p (classify_create hc) hf] at hok
+    cases hok
+  · exact h
 
-/-! ### the full statement, and why it is false -/
+/-- FULL statement for transactions: on every state whose index records are consistent and which
+abstracts to the etcd state `m`, every structurally valid transaction (keys given, int64 integers),
+other than the compactor's, is either refused with an error or answered with the projection the
+reference prescribes on `m` — for all compares, ops, keys, `range_end`s, flags, nested and empty ops,
+and all expectations (correct, stale, zero, future, negative). -/
+theorem shim_sound (c : Cfg) (s : BState) (m : Mvcc) (t : TxnReq) (hreq : ReqOK t)
+    (hw : ∀ k, WHyp c s k) (ha : ∀ k, AbsAt c s m k) (h63 : s.dealt + 1 < 2 ^ 63)
+    (hnc : classify t ≠ .compact) :
+    (∃ e, (shimTxn c s t).1 = .error e) ∨ Agree c s m t := by
+  rcases txn_cases t hreq with h | h | ⟨cm, p, rfl, hc, hf⟩ | h
+  · exact .inl ⟨_, by rw [(refused_unchanged c s t).1 h]⟩
+  · exact absurd h hnc
+  · exact .inl ⟨_, by rw [(refused_unchanged c s _).2 p (classify_create hc) hf]⟩
+  · exact canonical_sound c s m t h hreq.ints h63 (hw _) (ha _)
 
-/-- FULL statement: on every consistent state, every transaction with expectations that are not in
-the future is either refused with an error or answered as etcd answers it. -/
-def ShimSound : Prop :=
-  ∀ (c : Cfg) (s : BState) (m : Mvcc) (t : TxnReq),
-    (∀ k, WHyp c s k) → (∀ k, AbsAt c s m k) → (∀ cm ∈ t.compare, 0 ≤ cm.int ∧ cm.int ≤ s.dealt) →
-    (∃ e, (shimTxn c s t).1 = .error e) ∨ Agree c s m t
+/-- The well-shaped transactions with an expectation in `0 .. dealt+1` are not merely "refused or
+right": they are answered, and right (hypotheses only at the key of the transaction). -/
+theorem shim_sound_canonical (c : Cfg) (s : BState) (m : Mvcc) (t : TxnReq) (hcan : Canonical t)
+    (hw : WHyp c s (opKey t)) (ha : AbsAt c s m (opKey t))
+    (hexp : ∀ cm ∈ t.compare, 0 ≤ cm.int ∧ cm.int ≤ s.dealt + 1) :
+    Agree c s m t := by
+  cases hcan with
+  | create cm p hc hp => exact sound_create c s m cm p hc hp hw ha
+  | update cm p g n hc hp hg =>
+    have hi := hexp cm (by simp)
+    rw [hc.2.2.2.2] at hi
+    exact sound_update_in c s m cm p g n hc hi.1 hi.2 hp hg hw ha
+  | gdelete cm d g n hc h0 hk he hg =>
+    have hi := hexp cm (by simp)
+    rw [hc.2.2.2.2] at hi
+    exact sound_gdelete_in c s m cm d g n hc h0 hi.2 hk he hg hw ha
+  | udelete g d hk he hg => exact sound_udelete c s m g d hk he hg hw ha
 
-/-! concrete states for the counterexamples: memkv engine, three keys /r/a /r/b /r/c created at
-revisions 1001 1002 1003 (the scripts `witness_cases` of kbcheck/props/c16.py replay exactly these) -/
+/-- The unguarded delete of a missing key (formerly answered `Succeeded = false`): the shim now
+answers `Succeeded = true`, writes nothing, returns the empty read — the projection etcd prescribes. -/
+theorem unguarded_delete_missing_flag (c : Cfg) (s : BState) (m : Mvcc) (g : RangeReq) (d : DelReq)
+    (hk : d.key ≠ []) (he : d.rangeEnd = []) (hg : PlainGet g d.key) (hw : WHyp c s d.key)
+    (ha : AbsAt c s m d.key) (hmiss : curKv c s d.key = none) :
+    (shimTxn c s { compare := [], success := [.range g, .del d], failure := [] }).1 =
+      .ok { ok := true, hdr := s.dealt + 1, resps := [.range (s.dealt + 1) [] 0 false], wrote := false } ∧
+    Agree c s m { compare := [], success := [.range g, .del d], failure := [] } := by
+  have h := shim_udelete c s g d he hg hw
+  rw [hmiss] at h
+  exact ⟨h, sound_udelete c s m g d hk he hg hw ha⟩
+
+/-! concrete states for the witnesses: memkv engine, three keys /r/a /r/b /r/c created at revisions
+1001 1002 1003 (the scripts `witness_cases` of kbcheck/props/c16.py replay exactly these) -/
 def cfg0 : Cfg := { q := Quirks.memkv }
 def s0 : BState := { ring := Ring.new 4, dealt := 1000, committed := 1000 }
 def kA : Bytes := [47, 114, 47, 97]
@@ -153,128 +178,82 @@ def v9 : Bytes := [118, 57]
 def s1 : BState := (shimTxn cfg0 s0 (k8sCreate kA v1 0)).2
 def s2 : BState := (shimTxn cfg0 s1 (k8sCreate kB v2 0)).2
 def s3 : BState := (shimTxn cfg0 s2 (k8sCreate kC v3 0)).2
-def m0 : Mvcc := { rev := 1000 }
 def m3 : Mvcc :=
   { rev := 1003, kvs := [{ key := kA, val := v1, mod := 1001, create := 1001, version := 1 },
                          { key := kB, val := v2, mod := 1002, create := 1002, version := 1 },
                          { key := kC, val := v3, mod := 1003, create := 1003, version := 1 }] }
-
-theorem getInternal_empty (c : Cfg) (k : Bytes) (R : Nat) : getInternal c [] k R = none := by
-  have hlim : ∀ lim, applyLimit c.q lim [] = [] := by
-    intro lim
-    unfold applyLimit
-    split
-    · rfl
-    · cases c.q.limitMode <;> simp
-  have hdesc : ∀ a b, iterDesc c.q [] a b = [] := by
-    intro a b
-    unfold iterDesc
-    cases h : c.q.revFirstUnchecked <;> simp
-  have hit : ∀ a b lim, iterate c.q [] a b lim = [] := by
-    intro a b lim
-    unfold iterate
-    split
-    · exact hlim lim
-    · split
-      · rw [hdesc]; exact hlim lim
-      · exact hlim lim
-  unfold getInternal
-  simp only [hit]
-
-/-- The full statement is false: a guarded delete with expectation 0 of a missing key is answered
-`Succeeded = false`; etcd answers `true` (the compare `mod(k) = 0` holds). -/
-theorem shim_sound_false : ¬ ShimSound := by
-  intro h
-  have hw : ∀ k, WHyp cfg0 s0 k := fun k =>
-    ⟨rfl, by decide, by simp [idxOK, getInternal_empty, s0, Store.get]⟩
-  have ha : ∀ k, AbsAt cfg0 s0 m0 k := fun k =>
-    ⟨rfl, by simp [m0, Mvcc.get, curKv_eq, getInternal_empty, s0], by simp [m0]⟩
-  rcases h cfg0 s0 m0 (k8sDelete kA 0) hw ha (by decide) with ⟨e, he⟩ | ⟨r, r', m', h1, h2, h3⟩
-  · have : (shimTxn cfg0 s0 (k8sDelete kA 0)).1 =
-        .ok { ok := false, hdr := 1001, resps := [.range 1001 [] 0 false], wrote := false } := by decide
-    rw [this] at he
-    cases he
-  · have e1 : (shimTxn cfg0 s0 (k8sDelete kA 0)).1 =
-        .ok { ok := false, hdr := 1001, resps := [.range 1001 [] 0 false], wrote := false } := by decide
-    have e2 : (refTxn m0 (k8sDelete kA 0)).map Prod.fst =
-        .ok { ok := true, hdr := 1000, resps := [.del 1001 0], wrote := false } := by decide
-    rw [e1] at h1
-    rw [h2] at e2
-    cases h1
-    simp only [Except.map, Except.ok.injEq] at e2
-    subst e2
-    revert h3
-    decide
-
-/-! ### counterexamples, one per kind of deviation (all `decide`d in the model; replayed on the server) -/
+def pfxLo : Bytes := [47, 114, 47]     -- "/r/"
+def pfxHi : Bytes := [47, 114, 48]     -- "/r0"
 
 /-- the state `s3` abstracts to `m3` at every key used below, and its index records are consistent -/
 theorem s3_abstracts_to_m3 :
     (∀ k ∈ [kA, kB, kC, kD], (m3.get k).map KVFull.proj = curKv cfg0 s3 k ∧ idxOK cfg0 s3 k = true) ∧
     m3.rev = s3.dealt := by decide
 
-/-- `If(mod(/r/a)=0) Then(Put /r/d v9)`: /r/a exists, so etcd fails the transaction and writes nothing;
-the shim never looks at the compare key and runs it as a create of /r/d. -/
-theorem key_mismatch_executed :
-    let t : TxnReq := { compare := [{ key := kA }], success := [.put { key := kD, val := v9 }], failure := [] }
-    (shimTxn cfg0 s3 t).1 = .ok { ok := true, hdr := 1004, resps := [.put 1004], wrote := true } ∧
-    curKv cfg0 (shimTxn cfg0 s3 t).2 kD = some (kD, v9, 1004) ∧
-    (refTxn m3 t).map (fun x => (x.1.ok, x.1.wrote, x.2.get kD)) = .ok (false, false, none) := by decide
+/-! ### what used to be executed as something else is now refused (by `refused_unchanged`: an error
+on EVERY state, nothing executed). One theorem per former finding; same transactions as the witness
+scripts. -/
 
-/-- `If(mod(/r/a)=1001) Then(Put /r/b v9) Else(Get /r/a)`: the shim takes the key from the compare and
-overwrites /r/a; etcd writes /r/b. -/
-theorem key_mismatch_update_writes_compare_key :
-    let t : TxnReq := { compare := [{ key := kA, int := 1001 }], success := [.put { key := kB, val := v9 }],
-                        failure := [.range { key := kA }] }
-    curKv cfg0 (shimTxn cfg0 s3 t).2 kA = some (kA, v9, 1004) ∧
-    curKv cfg0 (shimTxn cfg0 s3 t).2 kB = some (kB, v2, 1002) ∧
-    (refTxn m3 t).map (fun x => ((x.2.get kA).map KVFull.proj, (x.2.get kB).map KVFull.proj)) =
-      .ok (some (kA, v1, 1001), some (kB, v9, 1004)) := by decide
+/-- compare key ≠ op key, in each shape: `If(mod(/r/a)=0) Then(Put /r/d)`,
+`If(mod(/r/a)=1001) Then(Put /r/b) Else(Get /r/a)`, `If(mod(/r/a)=1001) Then(Put /r/a) Else(Get /r/b)`,
+`If(mod(/r/a)=1001) Then(Delete /r/b) Else(Get /r/a)`, `Then(Get /r/b, Delete /r/a)`. -/
+theorem key_mismatch_rejected :
+    classify { compare := [{ key := kA }], success := [.put { key := kD, val := v9 }], failure := [] } = .unsupported ∧
+    classify { compare := [{ key := kA, int := 1001 }], success := [.put { key := kB, val := v9 }],
+               failure := [.range { key := kA }] } = .unsupported ∧
+    classify { compare := [{ key := kA, int := 1001 }], success := [.put { key := kA, val := v9 }],
+               failure := [.range { key := kB }] } = .unsupported ∧
+    classify { compare := [{ key := kA, int := 1001 }], success := [.del { key := kB }],
+               failure := [.range { key := kA }] } = .unsupported ∧
+    classify { compare := [], success := [.range { key := kB }, .del { key := kA }], failure := [] } = .unsupported := by
+  decide
 
-/-- `If(mod(/r/b)=1002) Then(Delete [/r/b, /r0)) Else(Get /r/b)`: etcd deletes /r/b and /r/c; the shim
-ignores `range_end` and deletes /r/b only. -/
-theorem ranged_delete_executed_as_point :
-    let t : TxnReq := { compare := [{ key := kB, int := 1002 }],
-                        success := [.del { key := kB, rangeEnd := [47, 114, 48] }], failure := [.range { key := kB }] }
-    ((shimTxn cfg0 s3 t).1.map (·.ok)) = .ok true ∧
-    curKv cfg0 (shimTxn cfg0 s3 t).2 kB = none ∧
-    curKv cfg0 (shimTxn cfg0 s3 t).2 kC = some (kC, v3, 1003) ∧
-    (refTxn m3 t).map (fun x => (x.1.ok, x.2.kvs.map (·.key))) = .ok (true, [kA]) := by decide
+/-- a delete with `range_end`, guarded and unguarded -/
+theorem ranged_delete_rejected :
+    classify { compare := [{ key := kB, int := 1002 }], success := [.del { key := kB, rangeEnd := pfxHi }],
+               failure := [.range { key := kB }] } = .unsupported ∧
+    classify { compare := [], success := [.range { key := kB }, .del { key := kB, rangeEnd := pfxHi }],
+               failure := [] } = .unsupported := by decide
 
-/-- `If(mod(/r/c)=0) Then(Delete /r/c) Else(Get /r/c)` on the existing /r/c: etcd's compare is false,
-the failure branch returns the current key-value; the shim passes revision 0 = "unconditional" to
-the backend and deletes the key. -/
-theorem mod0_delete_unconditional :
-    (shimTxn cfg0 s3 (k8sDelete kC 0)).1 =
-      .ok { ok := true, hdr := 1004, resps := [.range 1004 [(kC, v3, 1003)] 0 false], wrote := true } ∧
-    curKv cfg0 (shimTxn cfg0 s3 (k8sDelete kC 0)).2 kC = none ∧
-    (refTxn m3 (k8sDelete kC 0)).map (fun x => (x.1.obs (k8sDelete kC 0), (x.2.get kC).map KVFull.proj)) =
-      .ok ({ ok := false, writeRev := none, reads := [some [(kC, v3, 1003)]] }, some (kC, v3, 1003)) := by decide
+/-- a guarded delete with expectation 0 (formerly an unconditional delete), for every key -/
+theorem mod0_delete_rejected (k : Bytes) : classify (k8sDelete k 0) = .unsupported := by
+  simp [classify, isCreate, isDelete, isUpdate, isCompact, k8sDelete]
 
-/-- the unguarded delete of the missing /r/d (instance of `unguarded_delete_missing_flag`) -/
+/-- an update whose put carries prev_kv / ignore_value / ignore_lease -/
+theorem update_put_flags_rejected :
+    classify { compare := [{ key := kA, int := 1001 }], success := [.put { key := kA, val := [], ignoreValue := true }],
+               failure := [.range { key := kA }] } = .unsupported ∧
+    classify { compare := [{ key := kA, int := 1001 }], success := [.put { key := kA, val := v9, prevKv := true }],
+               failure := [.range { key := kA }] } = .unsupported ∧
+    classify { compare := [{ key := kA, int := 1001 }], success := [.put { key := kA, val := v9, ignoreLease := true }],
+               failure := [.range { key := kA }] } = .unsupported := by decide
+
+/-- options on the compare or on the Get: compare over a range, failure Get count_only / at a
+revision / over a range / keys_only -/
+theorem op_options_rejected :
+    classify { compare := [{ key := kA, int := 1001, rangeEnd := pfxHi }], success := [.put { key := kA, val := v9 }],
+               failure := [.range { key := kA }] } = .unsupported ∧
+    classify { compare := [{ key := kA, int := 1002 }], success := [.put { key := kA, val := v2 }],
+               failure := [.range { key := kA, countOnly := true }] } = .unsupported ∧
+    classify { compare := [{ key := kA, int := 1001 }], success := [.put { key := kA, val := v2 }],
+               failure := [.range { key := kA, revision := 1003 }] } = .unsupported ∧
+    classify { compare := [{ key := kA, int := 1002 }], success := [.del { key := kA }],
+               failure := [.range { key := kA, rangeEnd := pfxHi }] } = .unsupported ∧
+    classify { compare := [{ key := kA, int := 1002 }], success := [.del { key := kA }],
+               failure := [.range { key := kA, keysOnly := true }] } = .unsupported := by decide
+
+/-- the unguarded delete of the missing /r/d on `s3`: `Succeeded = true`, as the reference answers -/
 theorem unguarded_delete_missing_witness :
     (shimTxn cfg0 s3 (k8sDeleteUnguarded kD)).1 =
-      .ok { ok := false, hdr := 1004, resps := [.range 1004 [] 0 false], wrote := false } ∧
+      .ok { ok := true, hdr := 1004, resps := [.range 1004 [] 0 false], wrote := false } ∧
     (refTxn m3 (k8sDeleteUnguarded kD)).map (fun x => (x.1.ok, x.1.wrote, x.1.resps)) =
       .ok (true, false, [.range 1003 [] 0 false, .del 1004 0]) := by decide
 
-/-- `If(mod(/r/a)=1001) Then(Put /r/a "" ignore_value)`: etcd keeps the old value; the update shape
-ignores the flag (the create shape refuses it) and writes the empty value. -/
-theorem update_put_flags_ignored :
-    let t : TxnReq := { compare := [{ key := kA, int := 1001 }],
-                        success := [.put { key := kA, val := [], ignoreValue := true }],
-                        failure := [.range { key := kA }] }
-    curKv cfg0 (shimTxn cfg0 s3 t).2 kA = some (kA, [], 1004) ∧
-    (refTxn m3 t).map (fun x => (x.2.get kA).map KVFull.proj) = .ok (some (kA, v1, 1004)) := by decide
-
-/-- `If(mod(/r/a)=1002) Then(Put /r/a v2) Else(Get /r/a count_only)`: etcd's failure branch returns no
-key-values (count 1); the shim ignores the option and returns the key-value. -/
-theorem failure_get_options_ignored :
-    let t : TxnReq := { compare := [{ key := kA, int := 1002 }], success := [.put { key := kA, val := v2 }],
-                        failure := [.range { key := kA, countOnly := true }] }
-    (shimTxn cfg0 s3 t).1.map (fun r => r.obs t) =
-      .ok { ok := false, writeRev := none, reads := [some [(kA, v1, 1001)]] } ∧
-    (refTxn m3 t).map (fun x => x.1.obs t) = .ok { ok := false, writeRev := none, reads := [some []] } := by decide
+/-- Observation on the hypothesis `ReqOK` of `shim_sound`: a transaction of a supported shape on the
+EMPTY key is executed (etcd's request validation refuses it: "key is not provided"). -/
+theorem empty_key_executed :
+    (shimTxn cfg0 s3 (k8sCreate [] v1 0)).1 = .ok { ok := true, hdr := 1004, resps := [.put 1004], wrote := true } ∧
+    (refTxn m3 (k8sCreate [] v1 0)).map (fun x => x.1.ok) = .error .invalid := by decide
 
 /-! ### reads -/
 
@@ -329,9 +308,6 @@ def recs3 : List Rec :=
 
 theorem s3_store_abs : StoreAbs cfg0 s3 recs3 :=
   ⟨by decide, by decide, by decide, by decide, rfl, rfl⟩
-
-def pfxLo : Bytes := [47, 114, 47]     -- "/r/"
-def pfxHi : Bytes := [47, 114, 48]     -- "/r0"
 
 /-- Three keys, limit 1: the shim answers Count = 2, etcd 3. (With limit 2 it answers 3.) -/
 theorem limited_count_wrong :
@@ -398,6 +374,12 @@ theorem watch_put_matches_ref (m m' : Mvcc) (w : WEvent) (e : KVFull)
 
 /-! ### non-vacuity: the hypotheses of the implications above are satisfiable -/
 
+/-- the hypotheses of `shim_sound` hold on the empty store (for every key) -/
+example : (∀ k, WHyp cfg0 s0 k) ∧ (∀ k, AbsAt cfg0 s0 { rev := 1000 } k) ∧ s0.dealt + 1 < 2 ^ 63 :=
+  ⟨fun k => ⟨rfl, by decide, by simp [idxOK, getInternal_empty, s0, Store.get]⟩,
+   fun k => ⟨rfl, by simp [Mvcc.get, curKv_eq, getInternal_empty, s0], by simp⟩, by decide⟩
+example : ReqOK (k8sUpdate kA v1 1001 0) ∧ classify (k8sUpdate kA v1 1001 0) ≠ .compact :=
+  ⟨⟨by decide, by simp [k8sUpdate, Op.keyGiven, kA], by simp [k8sUpdate, Op.keyGiven, kA], by decide⟩, by decide⟩
 example : Canonical (k8sCreate kA v1 0) := .create _ _ ⟨rfl, rfl, rfl, rfl, rfl⟩ ⟨by decide, rfl, rfl, rfl⟩
 example : WHyp cfg0 s3 kA ∧ WHyp cfg0 s3 kD := ⟨⟨rfl, by decide, by decide⟩, ⟨rfl, by decide, by decide⟩⟩
 example : AbsAt cfg0 s3 m3 kA ∧ AbsAt cfg0 s3 m3 kD :=
